@@ -490,3 +490,7 @@ impl fmt::Display for AccessError {
         fmt::Display::fmt("already destroyed", f)
     }
 }
+
+#[cfg(loom_verif)]
+#[path = "/verif/hooks/thread_verif.rs"]
+pub(crate) mod verif;
